@@ -131,12 +131,63 @@ def build():
         raise GenError("lookup_entry_for_revname: label comparisons are not the two eq_ignore_ascii_case(as_wire) tests: %r" % (ms,))
     defs.append(("rev_fold_is_eq_ignore_ascii_case", "bool", "true"))
     # Bytes.lower in the model is u8::to_ascii_lowercase; hash_label folds with | 0x20 (only a filter)
+    # an unused slot (len == 0) that passes the hash/parent filter: debug_assert (pinned) or skipped?
+    flags = []
+    for nm, body in (("name", lk), ("revname", lr)):
+        a = re.search(r"debug_assert_ne!\(\s*len\s*,\s*0\s*\)\s*;", body)
+        k = re.search(r"if\s+len\s*==\s*0\s*\{\s*continue\s*;\s*\}", body)
+        if bool(a) == bool(k):
+            raise GenError("lookup_entry_for_%s: treatment of len == 0 not recognised" % nm)
+        flags.append(bool(k))
+    if flags[0] != flags[1]:
+        raise GenError("the two lookups treat len == 0 differently")
+    defs.append(("cmp_skips_unused", "bool", b(flags[0])))
     hl = fn_body(cp, "hash_label", after="impl NameCompressor")
     for nm in ("SEED1", "SEED2", "M"):
         m = one(r"const\s+%s\s*:\s*u64\s*=\s*" % nm + NUM + r"\s*;", hl, "hash_label " + nm)
         defs.append(("hash_" + nm.lower(), "N", N(num(m.group(1)))))
     m = one(r"\(\s*multiply_mix\(\s*s\.0\s*,\s*s\.1\s*\)\s*>>\s*(\d+)\s*\)\s*as\s+u16", hl, "hash_label final shift")
     defs.append(("hash_shift", "N", N(num(m.group(1)))))
+    # EDNS record: prefix, order and types of the fixed fields (parse and build), option framing
+    ed = strip_comments(read("src/new/edns/mod.rs"))
+    sb = fn_body(ed, "split_bytes", after="SplitBytes<'a> for EdnsRecord<D>")
+    m = one(r"bytes\.strip_prefix\(\s*&\[\s*(\d+)\s*,\s*(\d+)\s*,\s*(\d+)\s*\]\s*\)\.ok_or\(ParseError\)\?", sb, "EdnsRecord::split_bytes prefix")
+    defs.append(("edns_prefix", "list N", "[%s]" % "; ".join("%d%%N" % int(x) for x in m.groups())))
+    seq = re.findall(r"let\s*\(&?(\w+)\s*,\s*rest\)\s*=\s*<\s*&?\s*([\w<>, ]+?)\s*>::split_bytes\(rest\)\?\s*;", sb)
+    want_a = [("max_udp_payload", "U16"), ("ext_rcode", "u8"), ("version", "u8"), ("flags", "EdnsFlags"), ("data", "SizePrefixed<U16, D>")]
+    want_b = [("max_udp_payload", "U16"), ("version", "u8"), ("ext_rcode", "u8"), ("flags", "EdnsFlags"), ("data", "SizePrefixed<U16, D>")]
+    seq = [(a, b_.replace(" ", "").replace("SizePrefixed<U16,D>", "SizePrefixed<U16, D>")) for a, b_ in seq]
+    if seq == want_a: parse_ext_first = True
+    elif seq == want_b: parse_ext_first = False
+    else: raise GenError("EdnsRecord::split_bytes field sequence not recognised: %r" % (seq,))
+    bb = fn_body(ed, "build_bytes", after="BuildBytes for EdnsRecord<D>")
+    one(r"bytes\s*=\s*\[\s*0\s*,\s*0\s*,\s*41\s*\]\.as_slice\(\)\.build_bytes\(bytes\)\?", bb, "EdnsRecord::build_bytes prefix")
+    bseq = re.findall(r"bytes\s*=\s*self\.(\w+)\.build_bytes\(bytes\)\?", bb)
+    if bseq == [x for x, _ in want_a]: build_ext_first = True
+    elif bseq == [x for x, _ in want_b]: build_ext_first = False
+    else: raise GenError("EdnsRecord::build_bytes field sequence not recognised: %r" % (bseq,))
+    if parse_ext_first != build_ext_first:
+        raise GenError("EdnsRecord: split_bytes and build_bytes order ext_rcode / version differently")
+    defs.append(("edns_ext_before_version", "bool", b(parse_ext_first)))
+    st = one(r"pub\s+struct\s+EdnsFlags\s*\{\s*inner\s*:\s*(\w+)\s*,", ed, "EdnsFlags representation")
+    if st.group(1) != "U16": raise GenError("EdnsFlags is not a U16")
+    # TryFrom<Record>: ttl = [ext_rcode, version, flags_hi, flags_lo]
+    one(r"let\s*\[\s*ext_rcode\s*,\s*version\s*,\s*flags_hi\s*,\s*flags_lo\s*\]\s*=\s*value\.ttl\.value\.get\(\)\.to_be_bytes\(\)", ed, "TryFrom<Record> for EdnsRecord: ttl octet order")
+    one(r"u32::from_be_bytes\(\s*\[\s*value\.ext_rcode\s*,\s*value\.version\s*,\s*flags_hi\s*,\s*flags_lo\s*,?\s*\]\s*\)", ed, "From<EdnsRecord> for Record: ttl octet order")
+    # the old codec's view of the same octets: OptRecord::from_record
+    oo = strip_comments(read("src/base/opt/mod.rs"))
+    fr = fn_body(oo, "from_record", after="impl<Octs> OptRecord<Octs>")
+    m1 = one(r"ext_rcode\s*:\s*\(\s*record\.ttl\(\)\.as_secs\(\)\s*>>\s*(\d+)\s*\)\s*as\s+u8", fr, "OptRecord::from_record ext_rcode")
+    m2 = one(r"version\s*:\s*\(\s*record\.ttl\(\)\.as_secs\(\)\s*>>\s*(\d+)\s*\)\s*as\s+u8", fr, "OptRecord::from_record version")
+    one(r"flags\s*:\s*record\.ttl\(\)\.as_secs\(\)\s*as\s+u16", fr, "OptRecord::from_record flags")
+    one(r"udp_payload_size\s*:\s*record\.class\(\)\.to_int\(\)", fr, "OptRecord::from_record udp size")
+    defs.append(("old_opt_ext_shift", "N", N(int(m1.group(1)))))
+    defs.append(("old_opt_ver_shift", "N", N(int(m2.group(1)))))
+    od = strip_comments(read("src/new/rdata/edns.rs"))
+    pb = fn_body(od, "parse_bytes_by_ref", after="ParseBytesZC for Opt")
+    m = one(r"if\s+bytes\.len\(\)\s*>\s*" + NUM + r"\s*\{\s*return\s+Err\(ParseError\)", pb, "Opt: size bound")
+    defs.append(("edns_opt_max", "N", N(num(m.group(1)))))
+    one(r"while\s+offset\s*<\s*bytes\.len\(\)\s*\{\s*offset\s*\+=\s*2\s*;\s*let\s+size\s*=\s*bytes\.get\(\s*offset\s*\.\.\s*offset\s*\+\s*2\s*\)\.ok_or\(ParseError\)\?\s*;\s*let\s+size\s*:\s*usize\s*=\s*u16::from_be_bytes\(\[size\[0\],\s*size\[1\]\]\)\.into\(\)\s*;\s*offset\s*\+=\s*2\s*;\s*let\s+_\s*=\s*bytes\.get\(\s*offset\s*\.\.\s*offset\s*\+\s*size\s*\)\.ok_or\(ParseError\)\?\s*;\s*offset\s*\+=\s*size\s*;", pb, "Opt: option framing loop")
     # old reader (cross-check of Base/PName.v)
     pr = fn_body(strip_comments(read("src/base/name/parsed.rs")), "parse_ref", after="impl<'a, Octs: Octets + ?Sized> ParsedName<&'a Octs>")
     ms = list(re.finditer(r"if\s+name_len\s*(>=|>)\s*" + NUM + r"\s*\{\s*return\s+Err\(ParsedDnameError::LongName", pr))
